@@ -7,6 +7,7 @@ HARNESSES = [
     dict(name="c10", kind="sched", srcs=["harness/c10/c10_morph.cpp"]),
     dict(name="dharness", kind="dist", srcs=["harness/dist/dharness.cpp"]),
     dict(name="netharness", kind="dist", srcs=["harness/dist/netharness.cpp"]),
+    dict(name="dreduce", kind="dist", srcs=["harness/dist/dreduce.cpp"]),
     dict(name="c14a", kind="asan", srcs=["harness/c14/c14a_seq.cpp"]),
     dict(name="c14afz", kind="fuzz", srcs=["harness/c14/c14a_seq.cpp"], defs=["-DVERIF_LIBFUZZER"]),
     dict(name="c17a", kind="asan", srcs=["harness/c17/c17a_serialize.cpp"]),
@@ -291,9 +292,11 @@ PROPS = {
                      "single-threaded use"],
     ),
     "C15": dict(
-        variants={"native": ["galois_shmem"], "sched": ["galois_shmem"]},
+        variants={"native": ["galois_shmem", "galois_dist_async", "galois_gluon", "distbench"], "sched": ["galois_shmem"]},
+        extra_harnesses=["dreduce"],
         units=[dict(type="rc", harness="c15", quick=500000, thorough=7500000, enumerate=True, workers=8),
-               dict(type="rc", harness="c15s", quick=24000, thorough=360000)],
+               dict(type="rc", harness="c15s", quick=24000, thorough=360000),
+               dict(type="hyp", harness="py:c15d", quick=360, thorough=5400, workers=6)],
         engine="rapidcheck (in-process, real threads) + gsched",
         technique="property-based testing: rapidcheck-generated update multisets and thread assignments executed on the real thread pool; oracle = sequential fold / std::set / std::vector<bool> / sequential union-find; exhaustive enumeration of DynamicBitSet::reset(begin,end) alignments on sizes 1..200; the CAS loops (atomicMin/Max/Add/Subtract, DynamicBitSet set/reset, lock-free union-find merge/find) additionally run under the gsched schedule explorer with generated operation lists per thread",
         rule=("cases = (reducer or collection kind, value type, value-shape class incl. all-negative/mixed/extremes, 1..16 threads, "
@@ -305,11 +308,12 @@ PROPS = {
                     "exhaustive on sizes<=200, concurrent set/reset, bitwise ops, count, getOffsets), atomicMin/Max/Add/Subtract, concurrent "
                     "union-find. Real-thread schedules are sampled, not controlled, except for the CAS-loop helpers (c15s: atomic helpers incl. "
                     "returned old values, bitset test-and-set and neighbour bits of one word, union-find partition and merge count), whose "
-                    "interleavings gsched explores. Exploration only."),
+                    "interleavings gsched explores. Distributed reducers (py:c15d): epoch scripts (fresh object or reset, set, parallel updates, one or two "
+                    "reduce calls, read, reset's return value) on 1..4 hosts under mpirun against the fold over all hosts' updates. Exploration only."),
         level_note="trusted: the sequential models in the harness; real threads (no schedule control) for the reducers and containers -- values are schedule independent by construction; gsched for the CAS loops",
         assumptions=["32-bit and float sums are kept in range/exact by construction (overflow and rounding are outside the property)",
                      "concurrent bitset set/reset touch each index from one thread only (the final bit value must be schedule independent)",
-                     "DGAccumulator/DGReduceMax (distributed) are not covered by this unit"],
+                     "distributed reducers (py:c15d): DGAccumulator/DGReduceMax/DGReduceMin over int32/int64/uint32/uint64/float/double with small integer values (exact in every type); long double and LCI transport not driven"],
     ),
     "C16": dict(
         variants={"native": ["galois_shmem"], "sched": ["galois_shmem"]},
